@@ -6,6 +6,7 @@
   by any process of the tree, any depth of forking), for the three kinds of pool.
 -/
 import PonyVerif.Lemmas.ForkPool
+import PonyVerif.Lemmas.OraPool
 namespace PonyVerif.Props.C36
 open PonyVerif.Model.ForkPool
 
@@ -119,5 +120,23 @@ theorem C36_only_own_connections_partial (k : Kind) (evs : List Ev) (hd : discip
 example : disciplined (run (init .sqliteFile)
     [.act 0 .connect, .act 0 .stmt, .act 0 .release, .fork 0, .act 1 .connect, .act 1 .stmt, .act 1 .drop, .act 1 .disconnect,
      .act 0 .connect, .act 0 .stmt, .fork 1, .act 2 .connect, .act 2 .release]) := by unfold disciplined; decide
+
+/-! ### 5. the Oracle provider's pool (`OraPool`: a cx_Oracle SessionPool per process) -/
+
+/-- For every history of connect / connectFail (SessionPool creation or acquire raising) / stmt / release / drop / disconnect /
+    fork events: every connection `OraPool.connect` returns to process `p` was acquired from a session pool that `p` itself
+    created — never from the pool inherited from the parent, also after failed attempts. -/
+theorem C36_ora_connect_fresh (evs : List PonyVerif.Model.OraPool.Ev) :
+    ∀ e ∈ (PonyVerif.Model.OraPool.run PonyVerif.Model.OraPool.init evs).returned, e.2.pool.creator = e.1 :=
+  (PonyVerif.Model.OraPool.run_inv evs _ PonyVerif.Model.OraPool.init_inv).2
+
+/-- the recorded pid always is the creator of the record's session pool -/
+theorem C36_ora_pid_is_creator (evs : List PonyVerif.Model.OraPool.Ev) :
+    ∀ q ∈ (PonyVerif.Model.OraPool.run PonyVerif.Model.OraPool.init evs).procs, q.r.pid = q.r.cx.creator :=
+  (PonyVerif.Model.OraPool.run_inv evs _ PonyVerif.Model.OraPool.init_inv).1
+
+open PonyVerif.Model.OraPool in
+example : (run init [.act 0 .connect, .act 0 .release, .fork 0, .act 1 .connectFail, .act 1 .connect, .act 0 .connect]).returned
+    = [(0, ⟨1, ⟨0, 0⟩⟩), (1, ⟨4, ⟨4, 1⟩⟩), (0, ⟨5, ⟨0, 0⟩⟩)] := by decide
 
 end PonyVerif.Props.C36
